@@ -37,8 +37,38 @@ PANIC_CALLEES = [
 _PC = [(re.compile(p), k) for p, k in PANIC_CALLEES]
 
 IGNORED_ASSERTS = {"Overflow(Add)", "Overflow(Mul)", "Overflow(Shl)", "Overflow(Shr)"}
-IGNORE_REASON = ("usize Add/Mul overflow needs an operand near 2^63, i.e. an input of more than "
-                 "2^62 bytes; shifts are by constants")
+IGNORE_REASON = ("Add/Mul overflow of a 64-bit (or wider) integer needs an operand near 2^63, i.e. an input of more "
+                 "than 2^62 bytes or 2^63 calls; shifts are by constants. The argument does not carry over to a "
+                 "narrower integer: an Add/Mul overflow check on i8..i32 / u8..u32 is an ordinary site")
+WIDE_INTS = {"usize", "isize", "u64", "i64", "u128", "i128"}
+
+
+def _local_ty(fn, l):
+    v = fn.locals[l]
+    return v.get("ty") if isinstance(v, dict) else (v if isinstance(v, str) else None)
+
+
+def _operand_scalar_ty(fn, o):
+    """type of a by-value scalar operand (None if it is reached through a projection we cannot type)"""
+    if o.get("k") == "const":
+        return o.get("ty")
+    if o.get("k") in ("move", "copy") and not o["pl"].get("p"):
+        return _local_ty(fn, o["pl"]["l"])
+    return None
+
+
+def overflow_width(fn, t):
+    """the integer type an arithmetic overflow assert is about: the type of the right-hand operand (the left one
+    may be a place behind a reference for `x.f += 1`)"""
+    # the checked operation's result is the `(T, bool)` pair whose `.1` the assert tests
+    c = t.get("cond", {})
+    if c.get("k") in ("move", "copy"):
+        m = re.match(r"^\(([iu](?:8|16|32|64|128|size)), bool\)$", _local_ty(fn, c["pl"]["l"]) or "")
+        if m:
+            return m.group(1)
+    tys = [_operand_scalar_ty(fn, o) for o in t.get("ops", [])]
+    tys = [x for x in tys if x and re.match(r"^[iu](8|16|32|64|128|size)$", x)]
+    return tys[-1] if tys else None
 
 
 class Site:
@@ -70,11 +100,15 @@ def enumerate_sites(fn, include_expansion=True):
         t = fn.blocks[b]["t"]
         s = None
         if t["k"] == "assert":
+            what = t["msg"]
             if t["msg"] in IGNORED_ASSERTS:
-                continue
+                w = overflow_width(fn, t)
+                if t["msg"].startswith("Overflow(Sh") or w in WIDE_INTS:
+                    continue
+                what = f"{t['msg']}:{w or 'untyped'}"
             s = Site()
             s.kind = "assert"
-            s.what = t["msg"]
+            s.what = what
             s.expr = " , ".join(fn.expr_operand(o) for o in t["ops"])
         elif t["k"] == "call":
             k = classify_call(t["callee"])
